@@ -31,7 +31,7 @@ MANIFEST = {
 }
 
 BOUNDS = {"quick": {"vertices": 3, "links": 2, "mutators_after_warmup": 1}, "thorough": {"vertices": 3, "links": 2, "mutators_after_warmup": 2}}
-TIME_BUDGET = {"quick": 420, "thorough": 3000}
+TIME_BUDGET = {"quick": 420, "thorough": 1200}
 STUBS = ["filterfunc -> uninterpreted function", "un-pickled vertex -> vertex whose uid is absent from Vertex._CACHE_STATS"]
 ASSUMPTIONS = ["filters are pure functions kept alive by the caller", "pool bound as C01"]
 EXPLANATION = "warm-up queries, flag toggles, arbitrary mutator, then cached vs uncached answers for every vertex"
